@@ -2012,6 +2012,16 @@ func clientWiring(c *Ctx, id string) {
 		})
 		c.Check(nStores > 0 && bad == "", id, "wiring:metadata-default", start.Pos(), fmt.Sprintf("Start installs a backend (%d stores) only under metadata == nil", nStores), "Start installs a checkpoint backend although one may have been supplied (or none at all) "+bad+": SetMetadata's store is replaced, or the client runs without a backend")
 	}
+	// the client object is built on the path on which every step succeeded
+	built := false
+	allInstrs(newDcp, func(in ssa.Instruction) {
+		if al, ok := in.(*ssa.Alloc); ok && al.Heap {
+			if n, isN := al.Type().(*types.Pointer).Elem().(*types.Named); isN && n.Obj().Name() == "dcp" && len(liveGuards(in.Block())) == 0 {
+				built = true
+			}
+		}
+	})
+	c.Check(built, id, "wiring:client-built", newDcp.Pos(), "newDcp builds the client once every step succeeded", "newDcp does not build the client on the path on which every step succeeded (it returns no client and no error)")
 	consumerChain(c, id, start, newDcp)
 	c.Check(len(dropped) == 0, id, "wiring:newDcp-errors", newDcp.Pos(), "every fallible step of newDcp returns its error", "newDcp drops the error of "+strings.Join(dropped, ", ")+": the client starts on a connection, version or bucket description it does not have")
 }
